@@ -4,6 +4,8 @@ CHECKS = {
             "real": ["src/tbb scheduler: arena, arena_slot, mailbox, task_stream, task_dispatcher, threading_control, market, private_server (RML), task_group, parallel_for, partitioners"]},
     "C09": {"scenarios": ["c09"], "quick_budget_s": 45, "thorough_budget_s": 600,
             "real": ["include/oneapi/tbb/concurrent_queue.h, detail/_concurrent_queue_base.h, src/tbb/concurrent_bounded_queue.cpp, concurrent_monitor"]},
+    "C03": {"scenarios": ["c03"], "quick_budget_s": 50, "thorough_budget_s": 900,
+            "real": ["exception paths of task_dispatcher, task_group_context, start_for/start_reduce/for_each/invoke/pipeline tasks, task_group, task_arena::execute delegation, flow graph function_node"]},
     "C05": {"scenarios": ["c05"], "quick_budget_s": 50, "thorough_budget_s": 900,
             "real": ["include/oneapi/tbb/parallel_for.h, partitioner.h, blocked_range*.h, blocked_nd_range.h, parallel_for_each.h, parallel_invoke.h + scheduler"],
             "assumptions": ["the pure-input clause 'for every (begin,end,grain)' is sampled with corner-biased sizes (incl. > 2^24, > 2^32, near 2^64 with chunk-level accounting), not decided"]},
@@ -55,6 +57,9 @@ ASSUMPTIONS = [
 NOT_APPLICABLE = {}
 
 MANIFEST_TEXT = {
+    "C03": {"level": "Seeded search over schedules and throw plans: the k-th..k+m-th invocation of {body, Range copy constructor, Range splitting constructor, reduction-body splitting constructor, join} throws a tagged exception inside parallel_for (4 partitioners), parallel_reduce, parallel_for_each, parallel_invoke, parallel_pipeline, task_group (wait / run_and_wait), task_arena::execute and a flow-graph function_node, optionally with a concurrent external cancel; "
+                     "oracle: exactly one exception, with a tag really thrown by that group, reaches the caller; no body running or starting after the call exits; nothing escapes on a worker fiber; a second fault-free round on the same objects completes; construction/destruction balance of Range, Body and functor objects.",
+            "note": "throw sites are harness-side (user code); allocation failures inside the scheduler itself are not injected."},
     "C17": {"level": "Seeded search over schedules of 1-4 simulated threads issuing scalable_malloc/calloc/realloc/aligned_malloc/aligned_realloc/posix_memalign/free/msize and cleanup commands against the real tbbmalloc (sizes biased to every class boundary, alignments up to 2^20, foreign frees, threads exiting with live blocks whose slabs are orphaned and adopted by a later thread); "
                      "oracle: shadow interval map of live blocks with per-block fill patterns: no overlap, alignment, msize >= request, calloc zero, realloc prefix preserved, live blocks never written by the allocator.",
             "note": "request sizes and alignments are sampled (pure-input quantifier not decided); MALLOC_ASSERT, ASan and UBSan live in the quick flavour."},
